@@ -415,7 +415,8 @@ def is_failed(res):
     if len(res) != 1:
         return False
     t, s = res[0]
-    return s == NEG_INF and t.is_leaf and t.token.get('word') == 'FAILED' and str(t.cat) == 'NP'
+    # the statement fixes only that the placeholder is explicit and carries minus infinity; its word and category are the code's choice
+    return s == NEG_INF and t.is_leaf
 
 
 class Native(object):
